@@ -712,9 +712,9 @@ def oracle(case, obs):
 
 
 def nontrivial(case):
-    src = source(case)
     ax, ot, axmd, otmd = _keys(case['axis'])
     try:
+        src = source(case)    # a case built through a first collapse: the library may raise there (run_impl reports it)
         if case['op'] == 'o2m':
             return sum(len(p) for p, _ in o2m_yields(case, src[ax], src[axmd])) >= 2
         if case['f']['kind'] in ('badmap', 'emptymap'):
